@@ -319,10 +319,15 @@ class Repo:
             visit(tree.body, '')
             return out
         i0, i1 = index(original), index(m.tree)
+        # names the module as written reads without binding them (C functions that a .pyx file cimports, which the
+        # front end drops): a helper's body may carry them into the function it is inlined into
+        tolerated = set()
+        for _, fn0 in i0.values():
+            tolerated |= self._unbound_names(fn0, names0)
         for name, (body, fn) in i1.items():
             if name not in i0:
                 continue
-            bad = self._unbound_names(fn, names1) - self._unbound_names(i0[name][1], names0)
+            bad = self._unbound_names(fn, names1) - tolerated
             if bad:
                 k = next(i for i, st in enumerate(body) if st is fn)
                 body[k] = i0[name][1]
@@ -340,14 +345,48 @@ class Repo:
             for local, (mod, sym) in m.imports.items():
                 if sym and mod in helpers and sym in helpers[mod] and mod != m.name:
                     h = helpers[mod][sym]
-                    h_locals = {a.arg for a in h.args.args} | normalize.mutated_names(h, calls=False)
+                    h_locals = {a.arg for a in h.args.args} | normalize.mutated_names(h, calls=False) \
+                        | normalize._comp_targets(h)
                     free = {n.id for n in ast.walk(h) if isinstance(n, ast.Name)} - h_locals
-                    same = all(hasattr(builtins, x) or
-                               (x in bindings[mod] and bindings[mod].get(x) == bindings[m.name].get(x)
-                                and not bindings[mod][x].startswith('def '))
-                               for x in free)
+                    names_in_m = {n.id for n in ast.walk(m.tree) if isinstance(n, ast.Name)} | set(bindings[m.name])
+                    same = True
+                    needed = []
+                    for x in free:
+                        if hasattr(builtins, x):
+                            continue
+                        bx = bindings[mod].get(x)
+                        if bx is not None and not bx.startswith('def ') and bx == bindings[m.name].get(x):
+                            continue
+                        if bx is not None and bx.startswith(('import ', 'from ')) and x not in names_in_m:
+                            needed.append((x, mod))         # the importing module does not know the name at all:
+                            continue                        # it gets the helper's own import (added below)
+                        same = False
                     if same:
                         imported[local] = h
+                        for x, src_mod in needed:
+                            imp = next((st for st in ast.walk(self.modules[src_mod].tree)
+                                        if isinstance(st, (ast.Import, ast.ImportFrom)) and
+                                        any((a.asname or a.name.split('.')[0]) == x for a in st.names)), None)
+                            if imp is not None and not any(ast.dump(imp) == ast.dump(b) for b in m.tree.body):
+                                new_imp = ast.parse(ast.unparse(imp)).body[0]
+                                if isinstance(new_imp, ast.ImportFrom) and new_imp.level:
+                                    # a relative import of the helper's module: make it absolute for the other module
+                                    pkg = src_mod.rsplit('.', 1)[0] if '.' in src_mod else ''
+                                    base = pkg
+                                    for _ in range(new_imp.level - 1):
+                                        base = base.rsplit('.', 1)[0] if '.' in base else ''
+                                    new_imp.module = (base + '.' + new_imp.module) if new_imp.module else base
+                                    new_imp.level = 0
+                                new_imp.names = [a for a in new_imp.names if (a.asname or a.name.split('.')[0]) == x]
+                                ast.copy_location(new_imp, m.tree.body[0])
+                                ast.fix_missing_locations(new_imp)
+                                pos = 0
+                                while pos < len(m.tree.body) and (
+                                        (isinstance(m.tree.body[pos], ast.Expr) and isinstance(m.tree.body[pos].value, ast.Constant))
+                                        or (isinstance(m.tree.body[pos], ast.ImportFrom) and m.tree.body[pos].module == '__future__')):
+                                    pos += 1        # after the docstring and the __future__ imports
+                                m.tree.body.insert(pos, new_imp)
+                                bindings[m.name][x] = bindings[mod][x]
             # the normal form of a module depends on its source, the helpers it imports and the repository-wide
             # mutators summary: cache it under that key (an accelerator only - rebuilt whenever it is missing)
             key = hashlib.sha1()
